@@ -263,8 +263,8 @@ def run_scenario(repo: Repo, sc: Scenario) -> Run:
     run = Run(
         sc, I, rule, cfg, cfg_name, queries, verdicts, [e for e in raises if e.name != "AssertionError"],
         viols[-1] if viols else None, matchers[-1] if matchers else None, detectors[-1] if detectors else None,
-        [e for e in I.events if e.kind == "new" and isinstance(e.result, Inst) and e.result.cls.module.name == BEHAVIOR],
-        [e for e in I.events if e.kind == "new" and isinstance(e.result, Inst) and e.result.cls.module.name == MODREQ],
+        _requirement_events(I, BEHAVIOR),
+        _requirement_events(I, MODREQ),
         result,
     )
     cache[key] = run
@@ -320,6 +320,17 @@ def _dataclass_fields(repo: Repo, ci: ClassInfo) -> list[str]:
             if n not in names:
                 names.append(n)
     return names
+
+
+def _requirement_events(I: Interp, module: str) -> list:
+    """Constructor events of *the* requirement class of a module: the class the rule itself (query_language/rule.py) instantiates
+    there; helper records the requirement builds internally do not count."""
+    news = [e for e in I.events if e.kind == "new" and isinstance(e.result, Inst) and e.result.cls.module.name == module]
+    by_rule = [e for e in news if e.fi is not None and e.fi.module.name == RULE]
+    if not by_rule:
+        return news
+    cls = by_rule[0].result.cls
+    return [e for e in news if e.result.cls is cls]
 
 
 def legal_scenarios() -> list[Scenario]:
@@ -383,9 +394,13 @@ def _normalise(v) -> tuple:
             return (*parts[0][:3], "|".join(sorted({p[3] for p in parts})))
         return ("other", None, None, show_term(term_of(v))[:120])
     t = term_of(v)
+    flips = 0
+    while isinstance(t, tuple) and len(t) == 2 and t[0] in ("copy", "reversed"):
+        flips += t[0] == "reversed"
+        t = t[1]
     d = _data_of(t)
     if d is not None and d[0] in ("key", "elem"):
-        return (d[0], d[1], d[2], "as-is")
+        return (d[0], d[1], d[2], "swapped" if flips % 2 else "as-is")
     if t[0] == "tuple" and len(t) == 3:
         comps = t[1:]
         idx = []
